@@ -9,7 +9,13 @@
 (* quota of C in-flight                                                         *)
 (* transactions; each URL has one user flow  Limiter -> above_limit ->          *)
 (* GenerateResponse(429).  Operations:                                          *)
-(*   ReqFw            request to api.test/fw            -> "admit" | "refuse"   *)
+(*   ReqFw(g)         request to api.test/fw, group g   -> "admit" | "refuse"   *)
+(*                    (the quota is grouped by a header: one window per group)  *)
+(*   ReqSel(u)        request to a URL of host sel.test, where several user     *)
+(*                    flows overlap (three on sel.test/*, one each on /a, /b):   *)
+(*                    which processors run and what is answered depends only on *)
+(*                    the URL - whatever was observed for u first is what every *)
+(*                    later transaction to u must get                           *)
 (*   ReqCq(t)         request of transaction t to /cq   -> "admit" | "refuse"   *)
 (*   EndCq(t)         response (or proxy error) of an admitted transaction t    *)
 (*   Metrics          read of the per-flow invocation counters -> <<nFw, nCq>>  *)
@@ -21,38 +27,65 @@ EXTENDS Integers, FiniteSets
 CONSTANTS M, C, W
 
 VARIABLES now,     \* mock clock (seconds)
-          fwStart, \* instant the current fixed window opened (-1: none yet)
-          fw,      \* requests admitted by the fixed-window quota in the current window
+          fwStart, \* [group -> instant its current fixed window opened] (absent: none yet)
+          fw,      \* [group -> requests admitted by the fixed-window quota in its current window]
+          sel,     \* [url -> what a transaction to that URL runs and is answered] as first observed
           infl,    \* transactions holding a slot of the concurrency quota
           inv      \* [fw |-> n, cq |-> n] invocations of the two user flows
 
-svars == <<now, fwStart, fw, infl, inv>>
+svars == <<now, fwStart, fw, infl, inv, sel>>
 
-SInit == now = 0 /\ fwStart = -1 /\ fw = 0 /\ infl = {} /\ inv = [fw |-> 0, cq |-> 0]
+Empty == [x \in {} |-> 0]
+SInit == now = 0 /\ fwStart = Empty /\ fw = Empty /\ infl = {} /\ inv = [fw |-> 0, cq |-> 0] /\ sel = Empty
 
-Tick(d) == now' = now + d /\ UNCHANGED <<fwStart, fw, infl, inv>>
+Tick(d) == now' = now + d /\ UNCHANGED <<fwStart, fw, infl, inv, sel>>
 
-CountFw == inv' = [inv EXCEPT !.fw = @ + 1] /\ UNCHANGED <<now, fwStart, fw, infl>>
-CountCq == inv' = [inv EXCEPT !.cq = @ + 1] /\ UNCHANGED <<now, fwStart, fw, infl>>
+Put(f, k, v) == [x \in DOMAIN f \cup {k} |-> IF x = k THEN v ELSE f[x]]
 
-ReqFw(out) ==
-    LET restart == fwStart = -1 \/ now - fwStart >= W
-        cnt == IF restart THEN 0 ELSE fw
-    IN  /\ out = IF cnt < M THEN "admit" ELSE "refuse"
-        /\ fw' = IF out = "admit" THEN cnt + 1 ELSE cnt
-        /\ fwStart' = IF restart THEN now ELSE fwStart
-        /\ UNCHANGED <<now, infl, inv>>
+CountFw == inv' = [inv EXCEPT !.fw = @ + 1] /\ UNCHANGED <<now, fwStart, fw, infl, sel>>
+CountCq == inv' = [inv EXCEPT !.cq = @ + 1] /\ UNCHANGED <<now, fwStart, fw, infl, sel>>
+
+Restart(g) == g \notin DOMAIN fwStart \/ now - fwStart[g] >= W
+Cnt(g) == IF Restart(g) THEN 0 ELSE fw[g]
+
+ReqFw(g, out) ==
+    /\ out = IF Cnt(g) < M THEN "admit" ELSE "refuse"
+    /\ fw' = Put(fw, g, IF out = "admit" THEN Cnt(g) + 1 ELSE Cnt(g))
+    /\ fwStart' = IF Restart(g) THEN Put(fwStart, g, now) ELSE fwStart
+    /\ UNCHANGED <<now, infl, inv, sel>>
+
+\* n overlapping requests of group g at one instant, p of them admitted: permitted iff some order of the n verdicts is
+FwBatch(g, n, p) ==
+    /\ p \in 0..n /\ Cnt(g) + p <= M /\ (p < n => Cnt(g) + p >= M)
+    /\ fw' = Put(fw, g, Cnt(g) + p)
+    /\ fwStart' = IF Restart(g) THEN Put(fwStart, g, now) ELSE fwStart
+    /\ inv' = [inv EXCEPT !.fw = @ + n]
+    /\ UNCHANGED <<now, infl, sel>>
+
+\* n overlapping requests of n new transactions to the concurrency-limited URL, those in `adm` admitted
+CqBatch(n, adm) ==
+    /\ Cardinality(adm) <= n /\ adm \cap infl = {}
+    /\ Cardinality(infl) + Cardinality(adm) <= C
+    /\ (Cardinality(adm) < n => Cardinality(infl) + Cardinality(adm) >= C)
+    /\ infl' = infl \cup adm
+    /\ inv' = [inv EXCEPT !.cq = @ + n]
+    /\ UNCHANGED <<now, fwStart, fw, sel>>
+
+\* what a transaction to URL u of sel.test runs / is answered depends on u (and the loaded configuration) only
+ReqSel(u, out) ==
+    /\ IF u \in DOMAIN sel THEN out = sel[u] /\ UNCHANGED sel ELSE sel' = Put(sel, u, out)
+    /\ UNCHANGED <<now, fwStart, fw, infl, inv>>
 
 ReqCq(t, out) ==
     /\ out = IF Cardinality(infl) < C THEN "admit" ELSE "refuse"
     /\ infl' = IF out = "admit" THEN infl \cup {t} ELSE infl
-    /\ UNCHANGED <<now, fwStart, fw, inv>>
+    /\ UNCHANGED <<now, fwStart, fw, inv, sel>>
 
-EndCq(t) == infl' = infl \ {t} /\ UNCHANGED <<now, fwStart, fw, inv>>
+EndCq(t) == infl' = infl \ {t} /\ UNCHANGED <<now, fwStart, fw, inv, sel>>
 
 Metrics(nfw, ncq) == nfw = inv.fw /\ ncq = inv.cq /\ UNCHANGED svars
 
 \* invariants of the sequential machine (what no interleaving may break either)
-FwBound == fw <= M
+FwBound == \A g \in DOMAIN fw : fw[g] <= M
 CqBound == Cardinality(infl) <= C
 ================================================================================
